@@ -268,7 +268,8 @@ pub fn validate_array(array: &[Param<'_, '_>], sig: &signature::Type) -> Result<
         return Ok(());
     }
     for el in array {
-        if !sig.eq(&el.sig()) {
+        // not `el.sig()`: that panics on an empty struct
+        if !crate::wire::marshal::container::value_has_type(el, sig) {
             return Err(Error::ArrayElementTypesDiffer);
         }
     }
@@ -291,7 +292,7 @@ pub fn validate_dict(
     }
 
     for el in dict.values() {
-        if !val_sig.eq(&el.sig()) {
+        if !crate::wire::marshal::container::value_has_type(el, val_sig) {
             return Err(Error::DictValueTypesDiffer);
         }
     }
